@@ -5,8 +5,8 @@ use educe::Educe;
 use core::cmp::Ordering;
 #[derive(Educe)]
 #[educe(Hash)]
-pub enum T { A, Unit, None(#[educe(Hash(ignore))] A<0>, A<1>), V1(A<0>, A<0>, #[educe(Hash(method(m_hash)))] A<0>, #[educe(Hash(ignore))] A<0>) }
-pub fn values() -> Vec<T> { vec![T::A, T::Unit, T::None(A(0), A(0)), T::None(A(0), A(1)), T::None(A(0), A(7)), T::None(A(1), A(0)), T::None(A(1), A(1)), T::None(A(1), A(7)), T::None(A(7), A(0)), T::None(A(7), A(1)), T::None(A(7), A(7)), T::V1(A(1), A(0), A(1), A(1)), T::V1(A(1), A(7), A(7), A(0)), T::V1(A(0), A(7), A(7), A(0)), T::V1(A(0), A(0), A(0), A(7)), T::V1(A(7), A(7), A(0), A(7)), T::V1(A(1), A(7), A(1), A(1)), T::V1(A(7), A(1), A(1), A(0)), T::V1(A(7), A(7), A(0), A(1)), T::V1(A(1), A(0), A(7), A(0)), T::V1(A(7), A(1), A(0), A(7)), T::V1(A(0), A(0), A(1), A(1)), T::V1(A(1), A(1), A(7), A(7))] }
-pub fn show(x: &T) -> String { #[allow(unused_variables)] match x { T::A => format!("A()"), T::Unit => format!("Unit()"), T::None(p0, p1) => format!("None({},{})", sv(p0), sv(p1)), T::V1(p0, p1, p2, p3) => format!("V1({},{},{},{})", sv(p0), sv(p1), sv(p2), sv(p3)) } }
-pub fn o_hash(x: &T) -> Vec<String> { let mut e = Rec::default(); match x { T::A => { ::core::hash::Hash::hash(&0usize, &mut e); }, T::Unit => { ::core::hash::Hash::hash(&1usize, &mut e); }, T::None(p0, p1) => { ::core::hash::Hash::hash(&2usize, &mut e); ::core::hash::Hash::hash(p1, &mut e); }, T::V1(p0, p1, p2, p3) => { ::core::hash::Hash::hash(&3usize, &mut e); ::core::hash::Hash::hash(p0, &mut e); ::core::hash::Hash::hash(p1, &mut e); m_hash(p2, &mut e); } } e.0 }
+pub enum T { None, B(#[educe(Hash = false)] A<0>, A<1>), C { state: A<0> }, V1 { #[educe(Hash(ignore = true))] size: A<0>, #[educe(Hash(ignore))] data: A<1>, #[educe(Hash = false)] y: A<0> } }
+pub fn values() -> Vec<T> { vec![T::None, T::B(A(0), A(0)), T::B(A(0), A(1)), T::B(A(0), A(7)), T::B(A(1), A(0)), T::B(A(1), A(1)), T::B(A(1), A(7)), T::B(A(7), A(0)), T::B(A(7), A(1)), T::B(A(7), A(7)), T::C { state: A(0) }, T::C { state: A(1) }, T::C { state: A(7) }, T::V1 { size: A(1), data: A(1), y: A(7) }, T::V1 { size: A(7), data: A(1), y: A(7) }, T::V1 { size: A(0), data: A(1), y: A(1) }, T::V1 { size: A(0), data: A(1), y: A(0) }, T::V1 { size: A(7), data: A(0), y: A(1) }, T::V1 { size: A(1), data: A(7), y: A(1) }, T::V1 { size: A(0), data: A(0), y: A(0) }, T::V1 { size: A(0), data: A(7), y: A(7) }, T::V1 { size: A(7), data: A(1), y: A(1) }, T::V1 { size: A(1), data: A(1), y: A(0) }, T::V1 { size: A(0), data: A(0), y: A(7) }, T::V1 { size: A(1), data: A(0), y: A(1) }] }
+pub fn show(x: &T) -> String { #[allow(unused_variables)] match x { T::None => format!("None()"), T::B(p0, p1) => format!("B({},{})", sv(p0), sv(p1)), T::C { state: p0 } => format!("C({})", sv(p0)), T::V1 { size: p0, data: p1, y: p2 } => format!("V1({},{},{})", sv(p0), sv(p1), sv(p2)) } }
+pub fn o_hash(x: &T) -> Vec<String> { let mut e = Rec::default(); match x { T::None => { ::core::hash::Hash::hash(&0usize, &mut e); }, T::B(p0, p1) => { ::core::hash::Hash::hash(&1usize, &mut e); ::core::hash::Hash::hash(p1, &mut e); }, T::C { state: p0 } => { ::core::hash::Hash::hash(&2usize, &mut e); ::core::hash::Hash::hash(p0, &mut e); }, T::V1 { size: p0, data: p1, y: p2 } => { ::core::hash::Hash::hash(&3usize, &mut e); } } e.0 }
 pub fn run(out: &mut Out) { let vs = values(); for a in &vs { let mut g = Rec::default(); ::core::hash::Hash::hash(a, &mut g); let e = o_hash(a); out.check(g.0 == e, "hash_25", "hash", || format!("hash({}) fed {:?} expected {:?}", show(a), g.0, e)); } }
